@@ -1209,9 +1209,10 @@ class n0dict(n0dict_):
                         #--------------------------------
                         return parent_node, None, None, xpath_found_str, xpath_list
                 else:
-                    if isinstance(parent_node, (list, tuple)) and len(parent_node):
+                    if isinstance(parent_node, (list, tuple)):
                         # *******************************
                         # Not correct: indulge #2 in incorrect syntax -- [*] was skipped for list in xpath
+                        # (an empty list too: nothing in it satisfies the condition, that is NOT FOUND)
                         # *******************************
                         return n0dict._find(self, ["[*]"] + xpath_list, parent_node, return_lists, xpath_found_str)
 
